@@ -10,6 +10,7 @@
 -/
 import H8.Props.Common
 import H8.Lemmas.Cost
+set_option linter.unusedSimpArgs false
 namespace H8.Props.C02
 open H8 H8.Lemmas H8.Props
 
@@ -92,6 +93,220 @@ theorem ADDX_RR (op : BitVec 16) (st st' : Cpu) (c : BitVec 8) (i : Spec.Instr)
   all_goals (
     simp only [Spec.alu2K, Spec.addFlags, Spec.setFlag, Spec.flag, Spec.carryAt, nib, rdB, wrB, getEr, setEr, shOf]
     bv_decide)
+
+/-! ### longword register forms (the pattern fixes bit 3 of the destination field, so ERd exists) -/
+
+/-- ADD.L ERs,ERd -/
+theorem ADD_L_RR (op : BitVec 16) (st st' : Cpu) (c : BitVec 8) (i : Spec.Instr)
+    (hp : Spec.Form.pat .ADD_L_RR op 0 0 0 0 = true)
+    (hi : Spec.instrOf .ADD_L_RR op 0 0 0 0 = some i) (h : addLRn op st = .ok c st') :
+    st' = { st with regs := (specRegCcr i st).1, ccr := (specRegCcr i st).2 } := by
+  rw [Spec.instrOf_ADD_L_RR] at hi; simp only [Option.some.injEq] at hi; subst hi
+  rw [Spec.pat_ADD_L_RR] at hp; simp only [Bool.and_eq_true, beq_iff_eq] at hp
+  have h4 : (nib op 4).ule 7#8 = true := by (simp only [nib]; bv_decide)
+  have h3 : (nib op 3 &&& 7).ule 7#8 = true := by (simp only [nib]; bv_decide)
+  simp only [addLRn, bind_ok, readRnL_ok _ _ h4, readRnL_ok _ _ h3, writeRnL_ok _ _ _ h4, addProc32] at h
+  have := costI_state h; subst this
+  simp only [specRegCcr, Spec.exec, Spec.alu2At, Spec.getReg, Spec.setReg, getER_eq, setER_eq, Spec.alu2K, Option.map]
+  generalize st.regs = r; generalize st.ccr = cc
+  regs_ccr_decide
+
+/-- SUB.L ERs,ERd -/
+theorem SUB_L_RR (op : BitVec 16) (st st' : Cpu) (c : BitVec 8) (i : Spec.Instr)
+    (hp : Spec.Form.pat .SUB_L_RR op 0 0 0 0 = true)
+    (hi : Spec.instrOf .SUB_L_RR op 0 0 0 0 = some i) (h : subLRn op st = .ok c st') :
+    st' = { st with regs := (specRegCcr i st).1, ccr := (specRegCcr i st).2 } := by
+  rw [Spec.instrOf_SUB_L_RR] at hi; simp only [Option.some.injEq] at hi; subst hi
+  rw [Spec.pat_SUB_L_RR] at hp; simp only [Bool.and_eq_true, beq_iff_eq] at hp
+  have h4 : (nib op 4).ule 7#8 = true := by (simp only [nib]; bv_decide)
+  have h3 : (nib op 3 &&& 7).ule 7#8 = true := by (simp only [nib]; bv_decide)
+  simp only [subLRn, bind_ok, readRnL_ok _ _ h4, readRnL_ok _ _ h3, writeRnL_ok _ _ _ h4, subCalc32] at h
+  have := costI_state h; subst this
+  simp only [specRegCcr, Spec.exec, Spec.alu2At, Spec.getReg, Spec.setReg, getER_eq, setER_eq, Spec.alu2K, Option.map]
+  generalize st.regs = r; generalize st.ccr = cc
+  regs_ccr_decide
+
+/-- CMP.L ERs,ERd -/
+theorem CMP_L_RR (op : BitVec 16) (st st' : Cpu) (c : BitVec 8) (i : Spec.Instr)
+    (hp : Spec.Form.pat .CMP_L_RR op 0 0 0 0 = true)
+    (hi : Spec.instrOf .CMP_L_RR op 0 0 0 0 = some i) (h : cmpLRn op st = .ok c st') :
+    st' = { st with regs := (specRegCcr i st).1, ccr := (specRegCcr i st).2 } := by
+  rw [Spec.instrOf_CMP_L_RR] at hi; simp only [Option.some.injEq] at hi; subst hi
+  rw [Spec.pat_CMP_L_RR] at hp; simp only [Bool.and_eq_true, beq_iff_eq] at hp
+  have h4 : (nib op 4).ule 7#8 = true := by (simp only [nib]; bv_decide)
+  have h3 : (nib op 3 &&& 7).ule 7#8 = true := by (simp only [nib]; bv_decide)
+  simp only [cmpLRn, bind_ok, readRnL_ok _ _ h4, readRnL_ok _ _ h3, subCalc32] at h
+  have := costI_state h; subst this
+  simp only [specRegCcr, Spec.exec, Spec.alu2At, Spec.getReg, Spec.setReg, getER_eq, setER_eq, Spec.alu2K, Option.map]
+  generalize st.regs = r; generalize st.ccr = cc
+  regs_ccr_decide
+
+/-! ### byte immediates -/
+
+/-- ADD.B #xx:8,Rd -/
+theorem ADD_B_IMM (op : BitVec 16) (st st' : Cpu) (c : BitVec 8) (i : Spec.Instr)
+    (hi : Spec.instrOf .ADD_B_IMM op 0 0 0 0 = some i) (h : addBImm op st = .ok c st') :
+    st' = { st with regs := (specRegCcr i st).1, ccr := (specRegCcr i st).2 } := by
+  rw [Spec.instrOf_ADD_B_IMM] at hi; simp only [Option.some.injEq] at hi; subst hi
+  simp only [addBImm, aluImmB, bind_ok, readRnB_nib, writeRnB_nib, addProc8, ↓reduceIte] at h
+  have := costI_state h; subst this
+  simp only [specRegCcr, Spec.exec, Spec.alu2At, Spec.getReg, Spec.setReg, getR8_eq, setR8_eq, Spec.alu2K, Option.map]
+  generalize st.regs = r; generalize st.ccr = cc
+  regs_ccr_decide
+
+/-- CMP.B #xx:8,Rd -/
+theorem CMP_B_IMM (op : BitVec 16) (st st' : Cpu) (c : BitVec 8) (i : Spec.Instr)
+    (hi : Spec.instrOf .CMP_B_IMM op 0 0 0 0 = some i) (h : cmpBImm op st = .ok c st') :
+    st' = { st with regs := (specRegCcr i st).1, ccr := (specRegCcr i st).2 } := by
+  rw [Spec.instrOf_CMP_B_IMM] at hi; simp only [Option.some.injEq] at hi; subst hi
+  simp only [cmpBImm, aluImmB, bind_ok, pure_ok, readRnB_nib, subCalc8, Bool.false_eq_true, ↓reduceIte] at h
+  have := costI_state h; subst this
+  simp only [specRegCcr, Spec.exec, Spec.alu2At, Spec.getReg, Spec.setReg, getR8_eq, setR8_eq, Spec.alu2K, Option.map]
+  generalize st.regs = r; generalize st.ccr = cc
+  regs_ccr_decide
+
+/-- ADDX #xx:8,Rd -/
+theorem ADDX_IMM (op : BitVec 16) (st st' : Cpu) (c : BitVec 8) (i : Spec.Instr)
+    (hi : Spec.instrOf .ADDX_IMM op 0 0 0 0 = some i) (h : addxImm op st = .ok c st') :
+    st' = { st with regs := (specRegCcr i st).1, ccr := (specRegCcr i st).2 } := by
+  rw [Spec.instrOf_ADDX_IMM] at hi; simp only [Option.some.injEq] at hi; subst hi
+  simp only [addxImm, aluImmB, bind_ok, readRnB_nib, writeRnB_nib, addxProc_eq, ↓reduceIte] at h
+  have := costI_state h; subst this
+  simp only [specRegCcr, Spec.exec, Spec.alu2At, Spec.getReg, Spec.setReg, getR8_eq, setR8_eq, addx_result, Option.map]
+  generalize st.regs = r; generalize st.ccr = cc
+  congr 1
+  all_goals (
+    simp only [Spec.alu2K, Spec.addFlags, Spec.setFlag, Spec.flag, Spec.carryAt, nib, rdB, wrB, getEr, setEr, shOf, Spec.zx8]
+    bv_decide)
+
+/-! ### ADDS / SUBS (no flags), INC / DEC (N Z V; C and H untouched), NEG, EXTU — every register number, every
+     register file, every CCR -/
+
+theorem ADDS_1 (op : BitVec 16) (st st' : Cpu) (c : BitVec 8) (i : Spec.Instr)
+    (hp : Spec.Form.pat .ADDS_1 op 0 0 0 0 = true)
+    (hi : Spec.instrOf .ADDS_1 op 0 0 0 0 = some i) (h : addsSubs 1 op st = .ok c st') :
+    st' = { st with regs := (specRegCcr i st).1, ccr := (specRegCcr i st).2 } := by
+  unary_handler Spec.instrOf_ADDS_1 Spec.pat_ADDS_1
+
+theorem ADDS_2 (op : BitVec 16) (st st' : Cpu) (c : BitVec 8) (i : Spec.Instr)
+    (hp : Spec.Form.pat .ADDS_2 op 0 0 0 0 = true)
+    (hi : Spec.instrOf .ADDS_2 op 0 0 0 0 = some i) (h : addsSubs 2 op st = .ok c st') :
+    st' = { st with regs := (specRegCcr i st).1, ccr := (specRegCcr i st).2 } := by
+  unary_handler Spec.instrOf_ADDS_2 Spec.pat_ADDS_2
+
+theorem ADDS_4 (op : BitVec 16) (st st' : Cpu) (c : BitVec 8) (i : Spec.Instr)
+    (hp : Spec.Form.pat .ADDS_4 op 0 0 0 0 = true)
+    (hi : Spec.instrOf .ADDS_4 op 0 0 0 0 = some i) (h : addsSubs 4 op st = .ok c st') :
+    st' = { st with regs := (specRegCcr i st).1, ccr := (specRegCcr i st).2 } := by
+  unary_handler Spec.instrOf_ADDS_4 Spec.pat_ADDS_4
+
+theorem SUBS_1 (op : BitVec 16) (st st' : Cpu) (c : BitVec 8) (i : Spec.Instr)
+    (hp : Spec.Form.pat .SUBS_1 op 0 0 0 0 = true)
+    (hi : Spec.instrOf .SUBS_1 op 0 0 0 0 = some i) (h : addsSubs 0xffffffff op st = .ok c st') :
+    st' = { st with regs := (specRegCcr i st).1, ccr := (specRegCcr i st).2 } := by
+  unary_handler Spec.instrOf_SUBS_1 Spec.pat_SUBS_1
+
+theorem SUBS_2 (op : BitVec 16) (st st' : Cpu) (c : BitVec 8) (i : Spec.Instr)
+    (hp : Spec.Form.pat .SUBS_2 op 0 0 0 0 = true)
+    (hi : Spec.instrOf .SUBS_2 op 0 0 0 0 = some i) (h : addsSubs 0xfffffffe op st = .ok c st') :
+    st' = { st with regs := (specRegCcr i st).1, ccr := (specRegCcr i st).2 } := by
+  unary_handler Spec.instrOf_SUBS_2 Spec.pat_SUBS_2
+
+theorem SUBS_4 (op : BitVec 16) (st st' : Cpu) (c : BitVec 8) (i : Spec.Instr)
+    (hp : Spec.Form.pat .SUBS_4 op 0 0 0 0 = true)
+    (hi : Spec.instrOf .SUBS_4 op 0 0 0 0 = some i) (h : addsSubs 0xfffffffc op st = .ok c st') :
+    st' = { st with regs := (specRegCcr i st).1, ccr := (specRegCcr i st).2 } := by
+  unary_handler Spec.instrOf_SUBS_4 Spec.pat_SUBS_4
+
+theorem INC_B (op : BitVec 16) (st st' : Cpu) (c : BitVec 8) (i : Spec.Instr)
+    (hp : Spec.Form.pat .INC_B op 0 0 0 0 = true)
+    (hi : Spec.instrOf .INC_B op 0 0 0 0 = some i) (h : inc .B 1 op st = .ok c st') :
+    st' = { st with regs := (specRegCcr i st).1, ccr := (specRegCcr i st).2 } := by
+  unary_handler Spec.instrOf_INC_B Spec.pat_INC_B
+
+theorem INC_W_1 (op : BitVec 16) (st st' : Cpu) (c : BitVec 8) (i : Spec.Instr)
+    (hp : Spec.Form.pat .INC_W_1 op 0 0 0 0 = true)
+    (hi : Spec.instrOf .INC_W_1 op 0 0 0 0 = some i) (h : inc .W 1 op st = .ok c st') :
+    st' = { st with regs := (specRegCcr i st).1, ccr := (specRegCcr i st).2 } := by
+  unary_handler Spec.instrOf_INC_W_1 Spec.pat_INC_W_1
+
+theorem INC_W_2 (op : BitVec 16) (st st' : Cpu) (c : BitVec 8) (i : Spec.Instr)
+    (hp : Spec.Form.pat .INC_W_2 op 0 0 0 0 = true)
+    (hi : Spec.instrOf .INC_W_2 op 0 0 0 0 = some i) (h : inc .W 2 op st = .ok c st') :
+    st' = { st with regs := (specRegCcr i st).1, ccr := (specRegCcr i st).2 } := by
+  unary_handler Spec.instrOf_INC_W_2 Spec.pat_INC_W_2
+
+theorem INC_L_1 (op : BitVec 16) (st st' : Cpu) (c : BitVec 8) (i : Spec.Instr)
+    (hp : Spec.Form.pat .INC_L_1 op 0 0 0 0 = true)
+    (hi : Spec.instrOf .INC_L_1 op 0 0 0 0 = some i) (h : inc .L 1 op st = .ok c st') :
+    st' = { st with regs := (specRegCcr i st).1, ccr := (specRegCcr i st).2 } := by
+  unary_handler Spec.instrOf_INC_L_1 Spec.pat_INC_L_1
+
+theorem INC_L_2 (op : BitVec 16) (st st' : Cpu) (c : BitVec 8) (i : Spec.Instr)
+    (hp : Spec.Form.pat .INC_L_2 op 0 0 0 0 = true)
+    (hi : Spec.instrOf .INC_L_2 op 0 0 0 0 = some i) (h : inc .L 2 op st = .ok c st') :
+    st' = { st with regs := (specRegCcr i st).1, ccr := (specRegCcr i st).2 } := by
+  unary_handler Spec.instrOf_INC_L_2 Spec.pat_INC_L_2
+
+theorem DEC_B (op : BitVec 16) (st st' : Cpu) (c : BitVec 8) (i : Spec.Instr)
+    (hp : Spec.Form.pat .DEC_B op 0 0 0 0 = true)
+    (hi : Spec.instrOf .DEC_B op 0 0 0 0 = some i) (h : dec .B 1 op st = .ok c st') :
+    st' = { st with regs := (specRegCcr i st).1, ccr := (specRegCcr i st).2 } := by
+  unary_handler Spec.instrOf_DEC_B Spec.pat_DEC_B
+
+theorem DEC_W_1 (op : BitVec 16) (st st' : Cpu) (c : BitVec 8) (i : Spec.Instr)
+    (hp : Spec.Form.pat .DEC_W_1 op 0 0 0 0 = true)
+    (hi : Spec.instrOf .DEC_W_1 op 0 0 0 0 = some i) (h : dec .W 1 op st = .ok c st') :
+    st' = { st with regs := (specRegCcr i st).1, ccr := (specRegCcr i st).2 } := by
+  unary_handler Spec.instrOf_DEC_W_1 Spec.pat_DEC_W_1
+
+theorem DEC_W_2 (op : BitVec 16) (st st' : Cpu) (c : BitVec 8) (i : Spec.Instr)
+    (hp : Spec.Form.pat .DEC_W_2 op 0 0 0 0 = true)
+    (hi : Spec.instrOf .DEC_W_2 op 0 0 0 0 = some i) (h : dec .W 2 op st = .ok c st') :
+    st' = { st with regs := (specRegCcr i st).1, ccr := (specRegCcr i st).2 } := by
+  unary_handler Spec.instrOf_DEC_W_2 Spec.pat_DEC_W_2
+
+theorem DEC_L_1 (op : BitVec 16) (st st' : Cpu) (c : BitVec 8) (i : Spec.Instr)
+    (hp : Spec.Form.pat .DEC_L_1 op 0 0 0 0 = true)
+    (hi : Spec.instrOf .DEC_L_1 op 0 0 0 0 = some i) (h : dec .L 1 op st = .ok c st') :
+    st' = { st with regs := (specRegCcr i st).1, ccr := (specRegCcr i st).2 } := by
+  unary_handler Spec.instrOf_DEC_L_1 Spec.pat_DEC_L_1
+
+theorem DEC_L_2 (op : BitVec 16) (st st' : Cpu) (c : BitVec 8) (i : Spec.Instr)
+    (hp : Spec.Form.pat .DEC_L_2 op 0 0 0 0 = true)
+    (hi : Spec.instrOf .DEC_L_2 op 0 0 0 0 = some i) (h : dec .L 2 op st = .ok c st') :
+    st' = { st with regs := (specRegCcr i st).1, ccr := (specRegCcr i st).2 } := by
+  unary_handler Spec.instrOf_DEC_L_2 Spec.pat_DEC_L_2
+
+theorem NEG_B (op : BitVec 16) (st st' : Cpu) (c : BitVec 8) (i : Spec.Instr)
+    (hp : Spec.Form.pat .NEG_B op 0 0 0 0 = true)
+    (hi : Spec.instrOf .NEG_B op 0 0 0 0 = some i) (h : unary .B negProc op st = .ok c st') :
+    st' = { st with regs := (specRegCcr i st).1, ccr := (specRegCcr i st).2 } := by
+  unary_handler Spec.instrOf_NEG_B Spec.pat_NEG_B
+
+theorem NEG_W (op : BitVec 16) (st st' : Cpu) (c : BitVec 8) (i : Spec.Instr)
+    (hp : Spec.Form.pat .NEG_W op 0 0 0 0 = true)
+    (hi : Spec.instrOf .NEG_W op 0 0 0 0 = some i) (h : unary .W negProc op st = .ok c st') :
+    st' = { st with regs := (specRegCcr i st).1, ccr := (specRegCcr i st).2 } := by
+  unary_handler Spec.instrOf_NEG_W Spec.pat_NEG_W
+
+theorem NEG_L (op : BitVec 16) (st st' : Cpu) (c : BitVec 8) (i : Spec.Instr)
+    (hp : Spec.Form.pat .NEG_L op 0 0 0 0 = true)
+    (hi : Spec.instrOf .NEG_L op 0 0 0 0 = some i) (h : unary .L negProc op st = .ok c st') :
+    st' = { st with regs := (specRegCcr i st).1, ccr := (specRegCcr i st).2 } := by
+  unary_handler Spec.instrOf_NEG_L Spec.pat_NEG_L
+
+theorem EXTU_W (op : BitVec 16) (st st' : Cpu) (c : BitVec 8) (i : Spec.Instr)
+    (hp : Spec.Form.pat .EXTU_W op 0 0 0 0 = true)
+    (hi : Spec.instrOf .EXTU_W op 0 0 0 0 = some i) (h : extu .W op st = .ok c st') :
+    st' = { st with regs := (specRegCcr i st).1, ccr := (specRegCcr i st).2 } := by
+  unary_handler Spec.instrOf_EXTU_W Spec.pat_EXTU_W
+
+theorem EXTU_L (op : BitVec 16) (st st' : Cpu) (c : BitVec 8) (i : Spec.Instr)
+    (hp : Spec.Form.pat .EXTU_L op 0 0 0 0 = true)
+    (hi : Spec.instrOf .EXTU_L op 0 0 0 0 = some i) (h : extu .L op st = .ok c st') :
+    st' = { st with regs := (specRegCcr i st).1, ccr := (specRegCcr i st).2 } := by
+  unary_handler Spec.instrOf_EXTU_L Spec.pat_EXTU_L
 
 /-- Non-vacuity / totality: with the instruction at a 24-bit address the handler always completes. -/
 theorem ADD_B_RR_total (op : BitVec 16) (st : Cpu) (ha : BitVec.ule st.opc 0xffffff#32 = true) :
